@@ -80,7 +80,9 @@ DATA = "/repo/tests/data/"
 FILES_QUICK = ["1bpi.pdb", "2EQQ.pdb", "1vii.pdb", "native.pdb", "frame0.h5", "4OH9.pdb", "aaqaa-wat.pdb", "ala_ala_ala.pdb",
                "1am7_protein.pdb", "4ZUO.pdb", "bpti.pdb", "alanine-dipeptide-explicit.pdb"]
 FILES_THOROUGH = FILES_QUICK + ["1ncw.pdb.gz", "1vii_sustiva_water.pdb", "2koc.pdb", "3nch.pdb.gz"]
-EDITS = ["none", "del_atoms", "del_backbone", "del_residues", "del_termini", "chains", "stack", "trim_sidechain", "noise"]
+EDITS = ["none", "del_atoms", "del_backbone", "del_residues", "del_termini", "chains", "stack", "trim_sidechain", "noise", "rename_in_place"]
+# rename_in_place: all named torsions are computed once, then atoms of the SAME Topology object are renamed through the public
+# attributes, then everything is judged on the renamed topology: nothing remembered from the first call may survive
 PI32 = float(np.float32(np.pi))
 
 
@@ -514,7 +516,7 @@ def _edit(t, edit, rng, ctx):
     na = t.n_atoms
     keep = np.ones(na, bool)
     residues = list(top.residues)
-    if edit == "none":
+    if edit in ("none", "rename_in_place"):
         return t
     if edit == "noise":
         t2 = t.slice(range(t.n_frames), copy=True)
@@ -582,6 +584,24 @@ def _run_named(case, ctx):
     rng = common.rng_for("C07named", case["seed"])
     t = _edit(_load(case["file"]), case["edit"], rng, ctx)
     opt, periodic = case["opt"], case["periodic"]
+    if case["edit"] == "rename_in_place":
+        t = t.slice(range(t.n_frames), copy=True)  # private Topology object
+        for which in R.TORSIONS:
+            getattr(md, "compute_" + which)(t, periodic=False)  # first call: whatever is cached, is cached now
+        swaps = {"CG1": "CG2", "CG2": "CG1", "CD1": "CD2", "CD2": "CD1", "OG1": "CG2x", "NE": "NEx", "CD": "CDx"}
+        nren = 0
+        for res in t.topology.residues:
+            if rng.random() < 0.5:
+                for a in res.atoms:
+                    if a.name in swaps:
+                        a.name = swaps[a.name]
+                        nren += 1
+            if rng.random() < 0.1:
+                for a in res.atoms:
+                    if a.name in ("N", "C") and rng.random() < 0.5:
+                        a.name = a.name + "x"
+                        nren += 1
+        ctx.observe("atoms_renamed_in_place", "yes" if nren else "no")
     ctx.observe("file", case["file"])
     ctx.observe("edit", case["edit"])
     have_cell = t.unitcell_lengths is not None
